@@ -138,6 +138,13 @@ def run_render(ctx, doc, codes):
         rs = lambda: None if rng.below(5) == 0 else "".join(rng.choice(alpha) for _ in range(rng.range(0, 30)))
         grid.append((rng.choice(allcodes), rs(), rs(), rng.choice([None, None, 404, 500, 201]), rng.choice(HEADERS)))
     cases = [dict(error=err_json(*g)) for g in grid]
+    # the same value put together another way (an error of another code whose code is replaced afterwards, as a wrapping backend does): rendered alike
+    nvia = len(allcodes)
+    for k in range(nvia):
+        g = grid[2 * k]                       # (code, None, None, None, None)
+        grid.append(g); cases.append(dict(error=dict(err_json(*g), via="set_code_from_internal")))
+        g2 = (g[0], "replaced", None, None, None)
+        grid.append(g2); cases.append(dict(error=dict(err_json(*g2), via="set_code_from_not_found")))
     res = vlib.run_impl("c04", cases)
     impl = [show_impl(r) for r in res]
     model = [m.decode("utf8", "replace") for m in vlib.run_model("C04", IMPORTS, ["show_render (render gen_error_table false %s)" % err_term(*g) for g in grid], shard=150)]
